@@ -9,3 +9,99 @@ fn fixed_time_eq(a: &[u8], b: &[u8]) -> bool {
 
 pub(crate) mod streams;
 pub(crate) mod utils;
+
+#[cfg(feature = "_verif_hooks")]
+pub mod verif_hooks_crypto {
+	//! Verification hooks: public wrappers over the crate-private symmetric-crypto helpers, so
+	//! that external checkers exercise exactly the primitives this crate uses.
+	use super::streams::{
+		chachapoly_encrypt_with_swapped_aad as encrypt_with_swapped_aad, ChaChaPolyReadAdapter,
+		ChaChaPolyWriteAdapter, ChaChaTriPolyReadAdapter, TriPolyAADUsed,
+	};
+	use super::utils;
+	use crate::io::{self, Read};
+	use crate::ln::msgs::DecodeError;
+	use crate::util::ser::{FixedLengthReader, LengthReadableArgs, Readable, Writeable, Writer};
+	use alloc::vec::Vec;
+
+	/// The `chacha20-poly1305` crate this library is linked against.
+	pub use chacha20_poly1305;
+
+	/// [`utils::hkdf_extract_expand_twice`].
+	pub fn hkdf_extract_expand_twice(salt: &[u8], ikm: &[u8]) -> ([u8; 32], [u8; 32]) {
+		utils::hkdf_extract_expand_twice(salt, ikm)
+	}
+
+	/// [`utils::hkdf_extract_expand_8x`], with the eight keys in order.
+	pub fn hkdf_extract_expand_8x(salt: &[u8], ikm: &[u8]) -> [[u8; 32]; 8] {
+		let (k1, k2, k3, k4, k5, k6, k7, k8) = utils::hkdf_extract_expand_8x(salt, ikm);
+		[k1, k2, k3, k4, k5, k6, k7, k8]
+	}
+
+	/// [`utils::apply_chacha20`].
+	pub fn apply_chacha20(key: [u8; 32], nonce: [u8; 16], data: &mut [u8]) {
+		utils::apply_chacha20(key, nonce, data)
+	}
+
+	/// [`super::streams::chachapoly_encrypt_with_swapped_aad`].
+	pub fn chachapoly_encrypt_with_swapped_aad(
+		plaintext: Vec<u8>, key: [u8; 32], aad: [u8; 32],
+	) -> Vec<u8> {
+		encrypt_with_swapped_aad(plaintext, key, aad)
+	}
+
+	/// A byte string that is written as is and read until the end of the reader.
+	struct RawBytes(Vec<u8>);
+
+	impl Writeable for RawBytes {
+		fn write<W: Writer>(&self, w: &mut W) -> Result<(), io::Error> {
+			w.write_all(&self.0)
+		}
+	}
+
+	impl Readable for RawBytes {
+		fn read<R: Read>(r: &mut R) -> Result<Self, DecodeError> {
+			let mut res = Vec::new();
+			let mut buf = [0u8; 256];
+			loop {
+				let n = r.read(&mut buf)?;
+				if n == 0 {
+					break;
+				}
+				res.extend_from_slice(&buf[..n]);
+			}
+			Ok(RawBytes(res))
+		}
+	}
+
+	/// Encrypts `plaintext` through [`ChaChaPolyWriteAdapter`] (ciphertext followed by the tag).
+	pub fn chachapoly_write_adapter(rho: [u8; 32], plaintext: &[u8]) -> Vec<u8> {
+		let raw = RawBytes(plaintext.to_vec());
+		ChaChaPolyWriteAdapter::new(rho, &raw).encode()
+	}
+
+	/// Decrypts `data` (ciphertext followed by the tag) through [`ChaChaPolyReadAdapter`].
+	pub fn chachapoly_read_adapter(rho: [u8; 32], data: &[u8]) -> Result<Vec<u8>, DecodeError> {
+		let mut slice = data;
+		let mut rd = FixedLengthReader::new(&mut slice, data.len() as u64);
+		let res: ChaChaPolyReadAdapter<RawBytes> = LengthReadableArgs::read(&mut rd, rho)?;
+		Ok(res.readable.0)
+	}
+
+	/// Decrypts `data` through [`ChaChaTriPolyReadAdapter`]; the second component tells which tag
+	/// matched: 0 for the one without AAD, 1 for `aad_a`, 2 for `aad_b`.
+	pub fn chacha_tripoly_read_adapter(
+		key: [u8; 32], aad_a: [u8; 32], aad_b: [u8; 32], data: &[u8],
+	) -> Result<(Vec<u8>, u8), DecodeError> {
+		let mut slice = data;
+		let mut rd = FixedLengthReader::new(&mut slice, data.len() as u64);
+		let res: ChaChaTriPolyReadAdapter<RawBytes> =
+			LengthReadableArgs::read(&mut rd, (key, aad_a, aad_b))?;
+		let which = match res.used_aad {
+			TriPolyAADUsed::None => 0,
+			TriPolyAADUsed::First => 1,
+			TriPolyAADUsed::Second => 2,
+		};
+		Ok((res.readable.0, which))
+	}
+}
